@@ -1,40 +1,34 @@
-use pallas_traverse::probe::{block_era, Outcome};
+use pallas_codec::minicbor::{self, data::Token, decode::Tokenizer};
 #[kani::proof]
 #[kani::unwind(6)]
 #[kani::stub(std::fmt::format, crate::stubs::fmt_format_stub)]
-fn pa_82_uint() {
-    let mut b: [u8; 4] = kani::any();
-    b[0] = 0x82;
-    kani::assume(b[1] <= 0x1f);
-    let o = block_era(&b[..3]);
-    kani::cover!(matches!(o, Outcome::EpochBoundary));
-    core::mem::forget(o);
-}
-#[kani::proof]
-#[kani::unwind(6)]
-#[kani::stub(std::fmt::format, crate::stubs::fmt_format_stub)]
-fn pb_first_uint_n1() {
-    let mut b: [u8; 4] = kani::any();
-    kani::assume(b[0] <= 0x1f);
-    let o = block_era(&b[..1]);
-    kani::cover!(matches!(o, Outcome::Inconclusive));
-    core::mem::forget(o);
-}
-#[kani::proof]
-#[kani::unwind(6)]
-#[kani::stub(std::fmt::format, crate::stubs::fmt_format_stub)]
-fn pc_empty() {
-    let mut b: [u8; 4] = kani::any();
-    let o = block_era(&b[..0]);
-    kani::cover!(matches!(o, Outcome::Inconclusive));
-    core::mem::forget(o);
-}
-#[kani::proof]
-#[kani::unwind(6)]
-#[kani::stub(std::fmt::format, crate::stubs::fmt_format_stub)]
-fn pd_concrete() {
+fn pe_two_next_forget() {
     let b: [u8; 4] = [0x82, 0x07, 0x80, 0];
-    let o = block_era(&b[..3]);
-    assert!(matches!(o, Outcome::Matched(pallas_traverse::Era::Conway)));
-    core::mem::forget(o);
+    let mut t = Tokenizer::new(&b[..3]);
+    let r = t.next();
+    assert!(matches!(r, Some(Ok(Token::Array(2)))));
+    core::mem::forget(r);
+    let r = t.next();
+    assert!(matches!(r, Some(Ok(Token::U8(7)))));
+    core::mem::forget(r);
+}
+#[kani::proof]
+#[kani::unwind(6)]
+#[kani::stub(std::fmt::format, crate::stubs::fmt_format_stub)]
+fn pf_one_next_drop() {
+    let b: [u8; 4] = [0x82, 0x07, 0x80, 0];
+    let mut t = Tokenizer::new(&b[..3]);
+    let ok = matches!(t.next(), Some(Ok(Token::Array(2))));
+    assert!(ok);
+}
+#[kani::proof]
+#[kani::unwind(6)]
+#[kani::stub(std::fmt::format, crate::stubs::fmt_format_stub)]
+fn pg_sym_first_forget() {
+    let mut b: [u8; 4] = kani::any();
+    kani::assume(b[0] >= 0x80 && b[0] <= 0x9f);
+    let mut t = Tokenizer::new(&b[..3]);
+    let r = t.next();
+    kani::cover!(matches!(r, Some(Ok(Token::Array(2)))));
+    core::mem::forget(r);
 }
